@@ -20,6 +20,8 @@ def _worker(args):
     I.mode_domains = lea_run.mode_field_domains(fx)
     R = lea_rules.Rules(fx, I)
     I.checkers.append(R.check_segment)
+    with open(os.path.join(os.path.dirname(os.path.dirname(os.path.abspath(__file__))), "tables", "preconsume_benign.json")) as f:
+        I.probe_benign = {k: set(v) for k, v in json.load(f)["locals"].items()}
     top = lea_run.symbolic_mode(name, ctor, fields)
     below = []
     if name == "MakeCheckpoint":
@@ -39,7 +41,9 @@ def _worker(args):
     if err is None:
         path_obs = lea_rules.path_rules(fx, I, R, mode_name, ckpt, outs)
     obs = list(I.obs.values()) + list(path_obs.values())
+    wss = lea_rules.ws_summary(I, mode_name, len(below), outs) if err is None else None
     return {
+        "ws": wss,
         "mode": mode_name, "ckpt": ckpt, "paths": len(outs), "wall": round(time.time() - t0, 2), "error": err,
         "unanalysed": I.unanalysed, "stats": I.stats, "obs": obs,
         "counts": {r: {m: sorted(v) for m, v in ms.items()} for r, ms in R.counts.items()},
@@ -129,10 +133,19 @@ def compute(fact_path, jobs=None):
         for rule, ms in r["counts"].items():
             for m, keys in ms.items():
                 counts.setdefault(rule, {}).setdefault(m, set()).update(keys)
+    with open(os.path.join(os.path.dirname(os.path.dirname(os.path.abspath(__file__))), "tables", "ws_terminated_modes.json")) as f:
+        exempt = json.load(f)["modes"]
+    ws_obs, nruns = lea_rules.ws_order_obs([r["ws"] for r in results if r.get("ws")], exempt)
+    for o in ws_obs:
+        o["modes"] = []
+        merged[(o["rule"], o["key"])] = o
+    counts.setdefault("R-WS-ORDER", {})["push_runs"] = set(range(nruns))
+    counts["R-WS-ORDER"]["blind_modes"] = {r["ws"]["mode"] for r in results if r.get("ws") and r["ws"]["blind"]}
     return {
         "version": ENGINE_VERSION,
         "wall": round(time.time() - t0, 2),
-        "modes": [{k: v for k, v in r.items() if k not in ("obs", "counts")} for r in results],
+        "modes": [{k: v for k, v in r.items() if k not in ("obs", "counts", "ws")} for r in results],
+        "ws_summaries": [{k: v for k, v in r["ws"].items() if k != "runs"} for r in results if r.get("ws")],
         "obs": sorted(merged.values(), key=lambda o: (o["rule"], o["key"])),
         "counts": {r: {m: len(v) for m, v in ms.items()} for r, ms in counts.items()},
     }
@@ -144,6 +157,9 @@ def engine_hash():
     here = os.path.dirname(os.path.abspath(__file__))
     for fn in ("lea.py", "lea_prims.py", "lea_rules.py", "lea_run.py", "lea_engine.py", "chars.py", "facts.py"):
         with open(os.path.join(here, fn), "rb") as f:
+            h.update(f.read())
+    for fn in ("ws_terminated_modes.json", "spellings.json", "preconsume_benign.json"):
+        with open(os.path.join(os.path.dirname(here), "tables", fn), "rb") as f:
             h.update(f.read())
     return h.hexdigest()[:12]
 
